@@ -15,8 +15,16 @@ import (
 // fullTransport=false fixes the key transport to a well-formed RSA-OAEP EncryptedKey (the transport
 // dimensions are explored separately by VH_C09_decrypt_symkey; the two stages compose sequentially).
 func vhEncryptedAssertion(cert *tls.Certificate, fullTransport bool, maxLen int) *types.EncryptedAssertion {
+	return vhEncryptedAssertionAlg(cert, fullTransport, maxLen, "")
+}
+
+func vhEncryptedAssertionAlg(cert *tls.Certificate, fullTransport bool, maxLen int, dataAlg string) *types.EncryptedAssertion {
 	ea := &types.EncryptedAssertion{}
-	ea.EncryptionMethod.Algorithm = vString("ea.alg")
+	if dataAlg != "" {
+		ea.EncryptionMethod.Algorithm = dataAlg
+	} else {
+		ea.EncryptionMethod.Algorithm = vString("ea.alg")
+	}
 	symKey := vBytes("symkey")
 	ek := types.EncryptedKey{}
 	dig := ""
